@@ -32,6 +32,62 @@ func topExits(e *Eval, fn *ssa.Function) []Exit {
 	return out
 }
 
+// delegatedExits lists the exits of fn as its callers see them: an exit that hands on the
+// error of a module function it called (`return helper(...)`, or `if err != nil { return err }`
+// after `x, err := helper(...)`) is replaced by the exits of that helper — all of them in
+// the first form, the failing ones in the second — each with its own controlling conditions
+// followed by those of the call.
+func delegatedExits(e *Eval, fn *ssa.Function) []Exit {
+	var out []Exit
+	var expand func(x Exit, depth int)
+	expand = func(x Exit, depth int) {
+		if len(x.Vals) == 0 || depth > 4 {
+			out = append(out, x)
+			return
+		}
+		ev := asErr(x.Vals[len(x.Vals)-1])
+		call, _ := ev.Site.(*ssa.Call)
+		if ev.Kind != ekFrom || call == nil || call.Call.StaticCallee() == nil || len(call.Call.StaticCallee().Blocks) == 0 {
+			out = append(out, x)
+			return
+		}
+		callee := call.Call.StaticCallee()
+		var inner []Exit
+		for _, cx := range e.Exits {
+			if cx.Fn == callee && cx.Site == ssa.Instruction(call) {
+				inner = append(inner, cx)
+			}
+		}
+		if len(inner) == 0 {
+			out = append(out, x)
+			return
+		}
+		for _, cx := range inner {
+			cev := asErr(cx.Vals[len(cx.Vals)-1])
+			if ev.NonNil && cev.Kind == ekNil {
+				continue // the caller is on the edge where the helper failed
+			}
+			nx := cx
+			nx.Conds = append([]EdgeCond{}, cx.Conds...)
+			for _, c := range x.Conds {
+				if bv, ok := c.Val.(BoolV); ok && !bv.Known && bv.C != nil && bv.C.Kind == "isnil" {
+					if tv, ok := bv.C.A.(ErrV); ok && tv.Site == ev.Site {
+						continue // the test of the helper's error itself
+					}
+				}
+				nx.Conds = append(nx.Conds, c)
+			}
+			nx.InLoop = cx.InLoop || x.InLoop
+			nx.AfterLoop = cx.AfterLoop || x.AfterLoop
+			expand(nx, depth+1)
+		}
+	}
+	for _, x := range topExits(e, fn) {
+		expand(x, 0)
+	}
+	return out
+}
+
 // ruleT2T6 covers the encoder side: list selection (T2), separator (T6), size coherence (G4)
 // and, for tier 3, the bit layout of every emitted word (L1).
 func (a *Analysis) ruleT2T6() {
@@ -404,7 +460,15 @@ func (a *Analysis) ruleLayouts() {
 			d := (&Eval{}).digest("SHA256", []BytesV{ent}).(BytesV)
 			wantA := Layout{{W: K(cs), Sym: d.Val[0].Sym, Lo: K(256 - cs)}}
 			var nilExits, csExits int
-			for _, x := range topExits(e, a.CM) {
+			type rejExit struct {
+				pos    string
+				cmp    *EdgeCond
+				others []string
+				val    string
+			}
+			var rejects []rejExit
+			var nilIf *ssa.If
+			for _, x := range delegatedExits(e, a.CM) {
 				if x.InLoop || !x.AfterLoop {
 					continue
 				}
@@ -419,8 +483,37 @@ func (a *Analysis) ruleLayouts() {
 						break
 					}
 				}
+				// every other condition this exit depends on must be decided by the context
+				var others []string
+				for i := range x.Conds {
+					bv, ok := x.Conds[i].Val.(BoolV)
+					if x.Conds[i].LoopTest || (cmp != nil && x.Conds[i].If == cmp.If) {
+						continue
+					}
+					if ok && !bv.Known && bv.C != nil && bv.C.Kind == "isnil" {
+						if tv, isErr := bv.C.A.(ErrV); isErr && tv.Kind == ekFrom {
+							if c, isCall := tv.Site.(*ssa.Call); isCall && c.Call.StaticCallee() != nil && a.isModuleFunc(c.Call.StaticCallee()) {
+								// the error of a module helper: its failing exits are exits of the validator
+								// in their own right (delegatedExits) and are classified there and by S2
+								continue
+							}
+						}
+					}
+					if !ok || !bv.Known {
+						others = append(others, fmt.Sprint(x.Conds[i].Val))
+					}
+				}
 				if ev.Kind == ekNil {
 					nilExits++
+					if len(others) > 0 {
+						r.Bad("L3x", fk+"/accept-only-checksum", xp, ctx.Name, "after all words were found, acceptance also depends on %s: a sentence with a correct checksum can be rejected", strings.Join(others, " and "))
+					} else {
+						r.OK("L3x", fk+"/accept-only-checksum", xp, ctx.Name, "after the lookups, return nil depends on the checksum comparison alone")
+					}
+					nilIf = nil
+					if cmp != nil {
+						nilIf = cmp.If
+					}
 					if cmp == nil {
 						r.Bad("L3", fk+"/accept-guard", xp, ctx.Name, "return nil is not guarded by a checksum comparison")
 						continue
@@ -465,11 +558,30 @@ func (a *Analysis) ruleLayouts() {
 					default:
 						r.Bad("L2", fk+"/compared-values", xp, ctx.Name, "the accepted condition is %v = %v; BIP39 requires %v = %v", la, lb, wantA, wantB)
 					}
-				} else if cmp != nil {
-					bv := cmp.Val.(BoolV)
-					if bv.C.Kind == "bigcmp" || bv.C.Kind == "intcmp" {
-						csExits++
+				} else {
+					rejects = append(rejects, rejExit{xp, cmp, others, fmt.Sprint(x.Vals[len(x.Vals)-1])})
+					if cmp != nil {
+						bv := cmp.Val.(BoolV)
+						if bv.C.Kind == "bigcmp" || bv.C.Kind == "intcmp" {
+							csExits++
+						}
 					}
+				}
+			}
+			// every failure exit after the lookups is the other edge of that same comparison
+			for _, rj := range rejects {
+				switch {
+				case nilIf == nil:
+				case rj.cmp == nil || rj.cmp.If != nilIf || len(rj.others) > 0:
+					what := "unconditionally"
+					if rj.cmp != nil && rj.cmp.If != nilIf {
+						what = "under " + fmt.Sprint(rj.cmp.Val)
+					} else if len(rj.others) > 0 {
+						what = "under " + strings.Join(rj.others, " and ")
+					}
+					r.Bad("L3x", fk+"/reject-only-checksum", rj.pos, ctx.Name, "after all words were found, %s is returned %s, which is not the checksum comparison: a sentence with a correct checksum can be rejected", rj.val, what)
+				default:
+					r.OK("L3x", fk+"/reject-only-checksum", rj.pos, ctx.Name, "failure exit on the other edge of the checksum comparison")
 				}
 			}
 			if nilExits == 0 {
